@@ -77,6 +77,26 @@ CHECKS = {
             "members larger and smaller than every file, several roots, bfs/dfs, WHERE.",
             "The unlimited output of the same binary is the reference (its own correctness is C01/C02/C05/C19).",
             "DESIGN.md 4 C06"),
+    "C07": ("exploration",
+            "property-based testing (Hypothesis): metamorphic (aggregate query vs. the same query without aggregates) "
+            "plus an exact Fraction / float reference for the nine aggregate functions",
+            "The multiset of inner values comes from fselect's own non-aggregate run; the aggregate run must print "
+            "exactly one row whose COUNT/SUM/MIN/MAX are exact integers, AVG = SUM/COUNT to 1e-12 and the four "
+            "variance/deviation functions match the textbook formulas to 1e-9, for n = 0, 1, 2, many, fractional "
+            "means and sums above 2^32.",
+            "Empty-set MIN/MAX/AVG/variance and single-value sample variance are don't-care; Python Fraction/math "
+            "are the trusted arithmetic.",
+            "DESIGN.md 4 C07"),
+    "C08": ("exploration",
+            "property-based testing (Hypothesis): model partition of fselect's own ungrouped rows, conservation laws "
+            "against the ungrouped aggregate query, restriction metamorphic relation (`where key = value`), "
+            "sortedness of group rows",
+            "Key-tuple set equality (one row per distinct key, none twice), per-group aggregates against the C07 "
+            "reference over the model partition, sum of group COUNT/SUM == ungrouped COUNT/SUM, a sample of groups "
+            "re-obtained by restricting the ungrouped query, and ORDER BY over a selected key or integer aggregate.",
+            "Group order without ORDER BY, ORDER BY on unselected or non-integer columns and restriction on empty "
+            "key values are not asserted.",
+            "DESIGN.md 4 C08"),
 }
 
 PENDING = {}
